@@ -1009,7 +1009,7 @@ class HistogramBase(abc.ABC):
             self.errors2 = self.errors2 / other**2
             self._missed /= other
             if hasattr(self, "_stats"):
-                self._stats *= 1 / other
+                self._stats *= 1 / float(other)
         elif config.free_arithmetics:  # Treat other as array-like
             self._coerce_dtype(np.float64)
             array = np.asarray(other)
